@@ -1,12 +1,18 @@
 use std::fmt;
+#[cfg(not(may_verif))]
 use std::sync::atomic::{AtomicIsize, Ordering};
+#[cfg(may_verif)]
+use crate::verif::atomic::{AtomicIsize, Ordering};
 use std::sync::Arc;
 use std::time::Duration;
 
 use super::blocking::SyncBlocker;
 use crate::cancel::trigger_cancel_panic;
 use crate::park::ParkError;
+#[cfg(not(may_verif))]
 use crossbeam::queue::SegQueue;
+#[cfg(may_verif)]
+use crate::verif::SegQueue;
 
 /// Semphore primitive
 ///
